@@ -1,9 +1,54 @@
-import Fpdec.Lemmas.Dom
+import Fpdec.Lemmas.Cmp
 import Fpdec.Props.C08_Sites
 
-/-! # C08 — property theorems (under construction: see DESIGN.md section 6) -/
+/-!
+# C08 — Equality and ordering are by numeric value and form a total order
+
+* `partial_cmp_spec`, `cmp_spec`, `eq_spec`: on two Decimals `partial_cmp` is never `None`, `cmp` never panics, and both — as
+  well as `==` — are the comparison of the exact values `a/10^p` vs `b/10^q` (`Spec.cmp` = compare `a·10^q` with `b·10^p`),
+  also when aligning the scales overflows the i128 range (then the code decides by sign, proved right).
+* `eq_int_spec`, `cmp_dec_int_spec`, `cmp_int_dec_spec`: comparisons with the 9 integer types, both operand orders.
+* `value_order_*`: the value comparison is reflexive, antisymmetric (swap) and transitive; equality under it is equality of the
+  rationals — so `<, <=, >, >=, min, max` (std's default methods on top of `partial_cmp`/`cmp`) inherit a total order.
+rkyv: `ArchivedDecimal` uses the same macro bodies (`impl_partial_eq!`, `impl_partial_ord!`) over the same two fields; archiving,
+byte validation and deserialisation are rkyv's code and are exercised by the correspondence run with the `rkyv` (and `rkyv,packed`)
+feature, not modelled (partial).
+-/
 
 namespace Fpdec.Props.C08
 open Fpdec Fpdec.Model
+
+theorem partial_cmp_spec (x y : Dec) (hx : Dom x) (hy : Dom y) :
+    partialCmp x y = some (Spec.cmp x.coeff x.nfrac y.coeff y.nfrac) := partialCmp_spec x y hx hy
+
+theorem cmp_spec (x y : Dec) (hx : Dom x) (hy : Dom y) :
+    Model.cmp x y = .ok (Spec.cmp x.coeff x.nfrac y.coeff y.nfrac) := Fpdec.cmp_spec x y hx hy
+
+theorem eq_spec (x y : Dec) (hx : Dom x) (hy : Dom y) :
+    decimalEq x y = (Spec.cmp x.coeff x.nfrac y.coeff y.nfrac == .eq) := decimalEq_spec x y hx hy
+
+theorem eq_int_spec (signed : Bool) (d : Dec) (i : Int) (hd : Dom d) (hi : IntOperand signed i) :
+    decEqInt signed d i = (Spec.cmp d.coeff d.nfrac i 0 == .eq) := decEqInt_spec signed d i hd hi
+
+theorem cmp_dec_int_spec (signed : Bool) (d : Dec) (i : Int) (hd : Dom d) (hi : IntOperand signed i) :
+    partialCmpDecInt signed d i = some (Spec.cmp d.coeff d.nfrac i 0) := partialCmpDecInt_spec signed d i hd hi
+
+theorem cmp_int_dec_spec (signed : Bool) (i : Int) (d : Dec) (hd : Dom d) (hi : IntOperand signed i) :
+    partialCmpIntDec signed i d = some (Spec.cmp i 0 d.coeff d.nfrac) := partialCmpIntDec_spec signed i d hd hi
+
+theorem value_order_refl (a : Int) (p : Nat) : Spec.cmp a p a p = .eq := spec_cmp_refl a p
+
+theorem value_order_antisymm (a : Int) (p : Nat) (b : Int) (q : Nat) :
+    Spec.cmp b q a p = (Spec.cmp a p b q).swap := spec_cmp_swap a p b q
+
+theorem value_order_trans (a : Int) (p : Nat) (b : Int) (q : Nat) (c : Int) (r : Nat)
+    (h1 : Spec.cmp a p b q ≠ .gt) (h2 : Spec.cmp b q c r ≠ .gt) : Spec.cmp a p c r ≠ .gt :=
+  spec_cmp_trans a p b q c r h1 h2
+
+theorem value_order_eq_iff (a : Int) (p : Nat) (b : Int) (q : Nat) :
+    Spec.cmp a p b q = .eq ↔ a * (10 : Int) ^ q = b * (10 : Int) ^ p := spec_cmp_eq_iff a p b q
+
+/-! ### non-vacuity -/
+example : partialCmp ⟨1, 0⟩ ⟨10, 1⟩ = some .eq ∧ partialCmp Dec.MAX ⟨I128_MAX, 1⟩ = some .gt := by decide
 
 end Fpdec.Props.C08
